@@ -291,6 +291,8 @@ class World:
             "LANG": "C.UTF-8",
             "LC_ALL": "C.UTF-8",
             "PYTHONDONTWRITEBYTECODE": "1",
+            # a step that has to go through /bin/sh (not forked from the zygote) still gets the run's hash seed
+            "PYTHONHASHSEED": os.environ.get("PYTHONHASHSEED", "0"),
         }
         if extra:
             env.update({k: v.replace("$ROOT", self.root).replace("$SIDE", self.side) for k, v in extra.items()})
